@@ -40,6 +40,10 @@ def body_for(kind, v, w=None, k=1):
     if kind == "condinc":
         return ("fn", [], "int", [("if", ("bin", "<", V(v), I(5)), [("decl", v, None, ("bin", "+", V(v), I(k)), ("modify",))],
                                   [("decl", v, None, I(0), ("modify",))]), ("return", V(v))])
+    if kind == "mcallarg":
+        # the captured variable is used only as an argument of a method call
+        return ("fn", [], "int", [("decl", "box", ("list", "int"), ("list", [I(k)]), ()), ("expr", ("mcall", V("box"), "push", [V(v)])),
+                                  ("return", ("index", V("box"), I(1)))])
     if kind == "loopsum":
         return ("fn", [], "int", [("decl", "acc", None, I(0), ()), ("from", I(0), V(v), False, None, "q", [("decl", "acc", None, ("bin", "+", V("acc"), V("q")), ())]),
                                   ("return", V("acc"))])
@@ -73,7 +77,7 @@ def cases(draw):
             g.label("factory-local-shadows-module-var")
         shape = g.weighted([(3, "single"), (3, "pair"), (2, "nested"), (1, "mixed")])
         if shape == "single":
-            kind = g.choice(["inc", "read", "condinc", "shadow", "loopsum"])
+            kind = g.choice(["inc", "read", "condinc", "shadow", "loopsum", "mcallarg"])
             body = [("decl", local, None, V("init"), ()), ("return", body_for(kind, local, k=g.int(1, 3)))]
             facts.append((fname, "int"))
             stmts.append(("decl", fname, None, ("fn", [("init", "int")], FI, body), ()))
@@ -100,7 +104,7 @@ def cases(draw):
     nm = g.int(1, 4)
     for ci in range(nm):
         v = g.choice(mvars)
-        kind = g.choice(["read", "inc", "set", "shadow", "pure", "condinc", "read2", "loopsum"])
+        kind = g.choice(["read", "inc", "set", "shadow", "pure", "condinc", "read2", "loopsum", "mcallarg"])
         name = "m%d" % ci
         if kind == "read2":
             stmts.append(("decl", name, None, body_for(kind, v, g.choice(mvars)), ()))
